@@ -47,7 +47,7 @@ Definition lead_line_bytes (t : str) : str :=
 (* bytes of the printer's events *)
 Definition event_bytes (yemit : ynode -> str) (e : event cnode) : str :=
   match e with
-  | Sep | LeadSep => sep_bytes
+  | Printer.Sep | LeadSep => sep_bytes
   | LeadLine t => lead_line_bytes t
   | Res _ _ _ c => emit_doc yemit c
   | Nul => [0]
